@@ -5,6 +5,7 @@
    I/O completes within the stated time is a property of the runtime, measured by the tie. *)
 From Coq Require Import List Arith Bool.
 From Feox Require Import Model.WriteBehind Proofs.WriteBehindProofs.
+From Feox Require Import Model.Backlog Proofs.BacklogProofs.
 Import ListNotations.
 
 Theorem worker_owns_its_residue_class :
@@ -55,11 +56,77 @@ Check queued_entry_flushed_once_owner_ran :
 Print Assumptions queued_entry_flushed_once_owner_ran.
 
 Theorem worker0_pass_drains_retirements :
-  forall W S st, retq (wstep W S st (Run 0)) = [].
+  forall W S st, retq (wstep W S st (Run 0)) = []
+
+(* --- Model/Backlog.v: the counters the coordinator really reads.  A pass is Drain ... Finish with
+   anything in between; Finish may send any of the entries back (failed pass, entries whose turn
+   has not come) --- *)
+
+(* in every reachable state the counter of a shard is the length of its queue (checked on the real
+   store under the shard's lock through hook H15) *).
 Proof. exact run0_drains_retirements. Qed.
 Check worker0_pass_drains_retirements :
-  forall W S st, retq (wstep W S st (Run 0)) = [].
+  forall W S st, retq (wstep W S st (Run 0)) = []
+
+(* --- Model/Backlog.v: the counters the coordinator really reads.  A pass is Drain ... Finish with
+   anything in between; Finish may send any of the entries back (failed pass, entries whose turn
+   has not come) --- *)
+
+(* in every reachable state the counter of a shard is the length of its queue (checked on the real
+   store under the shard's lock through hook H15) *).
 Print Assumptions worker0_pass_drains_retirements.
+
+Theorem shard_counter_is_its_backlog :
+  forall W S evs s, s < S ->
+    nth s (b_cnts (brun W S (binit W S) evs)) 0 = length (nth s (b_bufs (brun W S (binit W S) evs)) [])
+
+(* hence the next tick wakes the owner of every shard that has anything queued *).
+Proof. exact counter_is_the_backlog. Qed.
+Check shard_counter_is_its_backlog :
+  forall W S evs s, s < S ->
+    nth s (b_cnts (brun W S (binit W S) evs)) 0 = length (nth s (b_bufs (brun W S (binit W S) evs)) [])
+
+(* hence the next tick wakes the owner of every shard that has anything queued *).
+Print Assumptions shard_counter_is_its_backlog.
+
+Theorem tick_wakes_the_owner_of_any_backlog :
+  forall W S evs s x, 0 < W -> s < S ->
+    In x (nth s (b_bufs (brun W S (binit W S) evs)) []) ->
+    nth (s mod W) (b_woken (bstep W S (brun W S (binit W S) evs) BTick)) false = true
+
+(* nothing accepted is dropped: it is written, queued (and counted), or in its owner's hands *).
+Proof. exact tick_wakes_owner_of_backlog. Qed.
+Check tick_wakes_the_owner_of_any_backlog :
+  forall W S evs s x, 0 < W -> s < S ->
+    In x (nth s (b_bufs (brun W S (binit W S) evs)) []) ->
+    nth (s mod W) (b_woken (bstep W S (brun W S (binit W S) evs) BTick)) false = true
+
+(* nothing accepted is dropped: it is written, queued (and counted), or in its owner's hands *).
+Print Assumptions tick_wakes_the_owner_of_any_backlog.
+
+Theorem accepted_entry_is_written_queued_or_in_hand :
+  forall W S evs1 evs2 s x, s < S ->
+    somewhere (brun W S (binit W S) (evs1 ++ BAdd s x :: evs2)) x
+
+(* and a pass that sends nothing back writes everything it took *).
+Proof. exact accepted_entry_is_never_dropped. Qed.
+Check accepted_entry_is_written_queued_or_in_hand :
+  forall W S evs1 evs2 s x, s < S ->
+    somewhere (brun W S (binit W S) (evs1 ++ BAdd s x :: evs2)) x
+
+(* and a pass that sends nothing back writes everything it took *).
+Print Assumptions accepted_entry_is_written_queued_or_in_hand.
+
+Theorem completed_pass_writes_all_it_took :
+  forall W S st s x,
+    BlInv S st -> s < S -> nth s (b_hand st) [] = [] -> In x (nth s (b_bufs st) []) ->
+    In x (b_written (bstep W S (bstep W S st (BDrain s)) (BFinish s []))).
+Proof. exact completed_pass_writes_what_it_took. Qed.
+Check completed_pass_writes_all_it_took :
+  forall W S st s x,
+    BlInv S st -> s < S -> nth s (b_hand st) [] = [] -> In x (nth s (b_bufs st) []) ->
+    In x (b_written (bstep W S (bstep W S st (BDrain s)) (BFinish s []))).
+Print Assumptions completed_pass_writes_all_it_took.
 Example three_workers_seven_shards :
   shards_of 3 7 0 = [0; 3; 6] /\ shards_of 3 7 1 = [1; 4] /\ shards_of 3 7 2 = [2; 5].
 Proof. vm_compute. repeat split; reflexivity. Qed.
@@ -68,3 +135,7 @@ Example one_period :
   let st := wrun 2 4 st0 [Add 3 11; Add 0 12; Tick; Add 3 13; Run 1; Run 0] in
   bufs st = [[]; []; []; []] /\ woken st = [false; false].
 Proof. vm_compute. split; reflexivity. Qed.
+Example failed_pass_keeps_everything_counted :
+  let st := brun 2 4 (binit 2 4) [BAdd 3 11; BAdd 3 12; BDrain 3; BAdd 3 13; BFinish 3 [false; true]; BTick] in
+  b_bufs st = [[]; []; []; [12; 13]] /\ b_cnts st = [0; 0; 0; 2] /\ b_written st = [11] /\ b_woken st = [false; true].
+Proof. vm_compute. repeat split; reflexivity. Qed.
